@@ -170,6 +170,13 @@ func instsByKey(incs ...*Inc) map[string]*simrt.OpInst {
 }
 
 func auditOracle(root *simrt.Inode, ex *Expect, insts map[string]*simrt.OpInst) Verdict {
+	return auditOracleOpt(root, ex, insts, false)
+}
+
+// presentOnly: the run did not complete (an injected fault stopped it): only
+// the outputs that were finalized are examined - each of them must still be
+// accompanied by its complete and faithful record.
+func auditOracleOpt(root *simrt.Inode, ex *Expect, insts map[string]*simrt.OpInst, presentOnly bool) Verdict {
 	var paths []string
 	for p := range ex.Files {
 		if !ex.Extras[p] {
@@ -181,6 +188,11 @@ func auditOracle(root *simrt.Inode, ex *Expect, insts map[string]*simrt.OpInst) 
 		lin := ex.Lins[p]
 		if lin == nil {
 			continue
+		}
+		if presentOnly {
+			if n := simrt.Find(root, p); n == nil || n.Kind != simrt.KFile {
+				continue
+			}
 		}
 		r, err := readAudit(root, p)
 		if err != nil {
@@ -196,7 +208,7 @@ func auditOracle(root *simrt.Inode, ex *Expect, insts map[string]*simrt.OpInst) 
 var profC10 = Profile{
 	MaxProcs: 5, MaxItems: 3, Bufsizes: []int{0, 1, 2}, MaxSlots: 4,
 	Params: true, MultiOut: true, FanIn: true, FanOut: true, NoPort: true, Custom: true,
-	Subdirs: true, Cores: true, TwoSources: true, Zip: true, ParamSrc: true, Taggers: true, Joins: true, EmptyOuts: true,
+	Subdirs: true, ParentAbs: true, NoOtherDevice: true, Cores: true, TwoSources: true, Zip: true, ParamSrc: true, Taggers: true, Joins: true, EmptyOuts: true,
 }
 
 func init() {
@@ -219,6 +231,25 @@ func init() {
 			}
 			c.Sample = sample(w)
 			ex := Eval(w)
+			if c.Tape.Choose(simrt.StFault, 8, 0) == 1 {
+				// the disk is full at one of the library's own writes (an audit file, a
+				// Go function's output). Stopping is fine and nothing is claimed then
+				// (C10 does not quantify over I/O errors: a torn re-write of an audit
+				// file by a tagging component is possible on the unchanged tree); but a
+				// run that REPORTS COMPLETION must have left every record complete
+				k := 1 + c.Tape.Choose(simrt.StFault, 8, 0)
+				c.Sample = fmt.Sprintf("disk full at Go-level write #%d: %s", k, c.Sample)
+				inc := RunInc(w, c.Tape, nil, 0, IncOpts{KillAt: -1, Strategy: strategyOf(c.Tape), Trace: c.Trace, DiskFullAt: k})
+				c.Absorb(inc)
+				if v, ok := inconclusiveEnd(inc); ok {
+					return v
+				}
+				if !completedOK(inc) {
+					c.Probe("disk-full-run-stopped")
+					return OK()
+				}
+				return auditOracleOpt(inc.Sim.FS.Root, ex, instsByKey(inc), false)
+			}
 			inc := RunInc(w, c.Tape, nil, 0, IncOpts{KillAt: -1, Strategy: strategyOf(c.Tape), Trace: c.Trace})
 			c.Absorb(inc)
 			if v := flowOracle(inc, ex); v.Status != "ok" {
@@ -426,6 +457,15 @@ func init() {
 				prof.Taggers = true
 			}
 			w := Generate(c.Tape, crashTierProfile(prof, c.Tier))
+			if mode != 1 && c.Tape.Choose(simrt.StGen, 4, 0) == 1 {
+				// a command that re-writes its input in place (an index update, sort -o):
+				// the input's bytes stay, its mtime becomes later than its audit file's
+				for i := range w.Nodes {
+					if n := &w.Nodes[i]; n.Kind == KProc && n.Custom == 0 && len(n.Ins) > 0 && !n.Ins[0].Join && c.Tape.Choose(simrt.StGen, 2, 0) == 1 {
+						n.TouchIn = true
+					}
+				}
+			}
 			ex := Eval(w)
 			var existed map[string]bool
 			check := func(final *simrt.Inode, before map[string]map[string]any, incs ...*Inc) Verdict {
@@ -481,6 +521,21 @@ func init() {
 				for _, sn := range inc.Snaps {
 					c.CrashStates++
 					c.Fault("kill@state")
+					if c.Tape.Choose(simrt.StKill, 4, 0) == 1 && len(Leftovers(sn.Root)) > 0 {
+						// re-run WITHOUT cleanup: refusing is the expected outcome (C03); if it
+						// does complete, what it produced must carry the full lineage all the same
+						incN := RunInc(w, c.Tape, sn.Root, sn.NextIno, IncOpts{KillAt: -1, Strategy: strategyOf(c.Tape), Trace: c.Trace})
+						c.Absorb(incN)
+						c.Fault("rerun-without-cleanup")
+						if completedOK(incN) {
+							if cl, _ := checkFinalFiles(incN.Sim.FS.Root, ex, true); cl == "" || cl == "tmp-left" {
+								if v := auditOracle(incN.Sim.FS.Root, ex, instsByKey(inc, incN)); v.Status != "ok" {
+									v.Detail = fmt.Sprintf("killed after fs operation #%d (%s %s), re-run without cleanup completed: %s", sn.JSeq, sn.Entry.Op, strings.TrimPrefix(sn.Entry.Path, "/work/"), v.Detail)
+									return v
+								}
+							}
+						}
+					}
 					root := Cleanup(sn.Root)
 					before := auditFilesOf(root, ex)
 					inc2 := RunInc(w, c.Tape, root, sn.NextIno, IncOpts{KillAt: -1, Strategy: strategyOf(c.Tape), Trace: c.Trace})
